@@ -271,7 +271,16 @@ func runProperty[C any](t *testing.T, prop string, gen func(*rapid.T) C, run fun
 			// in-process re-execution of a sample of cases: the run must be a pure function of the case
 			if o.Digest != "" && (caseNo <= 3 || caseNo%97 == 0) {
 				o2 := safeRun(c)
-				if o2.Digest != o.Digest || o2.Sig != o.Sig { // the violation text may hold addresses; the signature may not
+				// The race detector never reports a race that is not there, but an incidental happens-before
+				// edge (runtime caches warmed by the first execution) can hide one on re-execution: a differing
+				// race verdict over an identical execution (same digest) is not nondeterminism, and the run that
+				// reported the race is the one that counts.
+				raceSig := func(s string) bool { return strings.Contains(s, "/race:") }
+				if o2.Digest == o.Digest && o2.Sig != o.Sig && (raceSig(o.Sig) || raceSig(o2.Sig)) {
+					if raceSig(o2.Sig) && !raceSig(o.Sig) {
+						o = o2
+					}
+				} else if o2.Digest != o.Digest || o2.Sig != o.Sig { // the violation text may hold addresses; the signature may not
 					cj, _ := json.Marshal(c)
 					st.Nondet = fmt.Sprintf("case %d gave digest %s then %s, signature %q then %q; CASE=%s\nfirst: %s\nsecond: %s", caseNo, o.Digest, o2.Digest, o.Sig, o2.Sig, cj, o.Violation, o2.Violation)
 				}
